@@ -110,11 +110,11 @@ RL_CONFIGS = [
 ]
 
 
-def rl_cfg(name, wal, qui, same, invs, fair=False, trunc=True, zero=True, readers=2):
-    c = os.path.join(vlib.scratch(), "rl_%s_%s.cfg" % (name, abs(hash(invs)) % 10000))
+def rl_cfg(name, wal, qui, same, invs, fair=False, trunc=True, zero=True, readers=2, marks='{"READa", "READb"}'):
+    c = os.path.join(vlib.scratch(), "rl_%s_%s.cfg" % (name, abs(hash(invs + marks)) % 100000))
     b = lambda x: "TRUE" if x else "FALSE"
-    open(c, "w").write('SPECIFICATION %s\nCONSTANTS\n Readers = {%s}\n Wal = %s\n Quiescent = %s\n SameVers = %s\n TruncateWal = %s\n ZeroShm = %s\n MaxTx = 2\nINVARIANTS %s\n%s'
-                       % ("FairSpec" if fair else "Spec", ", ".join('"r%d"' % i for i in range(1, readers + 1)), b(wal), b(qui), b(same), b(trunc), b(zero), invs, "PROPERTIES C19_Terminates\n" if fair else ""))
+    open(c, "w").write('SPECIFICATION %s\nCONSTANTS\n Readers = {%s}\n Wal = %s\n Quiescent = %s\n SameVers = %s\n TruncateWal = %s\n ZeroShm = %s\n LockedMarks = %s\n MaxTx = 2\nINVARIANTS %s\n%s'
+                       % ("FairSpec" if fair else "Spec", ", ".join('"r%d"' % i for i in range(1, readers + 1)), b(wal), b(qui), b(same), b(trunc), b(zero), marks, invs, "PROPERTIES C19_Terminates\n" if fair else ""))
     return c
 
 
@@ -141,6 +141,10 @@ def lock_model(tier, s14_open):
         r = vlib.run_tlc("RestoreLock.tla", rl_cfg("drop", True, False, False, "C19_FreshReadsWhole", trunc=trunc, zero=zero), workers=4, timeout=900)
         if not r.violated:
             mm.append("RestoreLock.tla is vacuous: without %s the invariant still holds" % ("the WAL truncation" if not trunc else "the wal-index reset"))
+    # every read mark has to be locked: leaving one out must break the model
+    r = vlib.run_tlc("RestoreLock.tla", rl_cfg("marks", True, False, False, "C19_FreshReadsWhole C19_CopyExclusive", marks='{"READa"}'), workers=4, timeout=900)
+    if not r.violated:
+        mm.append("RestoreLock.tla is vacuous: with a read mark left unlocked the invariants still hold")
     return states, mm, shows
 
 
@@ -185,6 +189,25 @@ def run(tier):
     for t in fl[:4]:
         rp = vlib.write_replay(PID, "cache", {"failure": t, "cases": cp["cases"]})
         violations.append((t, rp))
+    # a reader process pinned on each WAL read mark while the real restore runs
+    out = os.path.join(vlib.scratch(), "pp.json")
+    p = vlib.run_vh(["restore-pin-probe", BIN, out], timeout=900)
+    if p.returncode != 0:
+        raise vlib.ToolError("vh restore-pin-probe failed: %s" % p.stderr[-1500:])
+    pp = json.load(open(out))
+    for cse in pp["cases"]:
+        if not cse["reader_ready"]:
+            raise vlib.ToolError("the pinned reader (read mark %d) did not come up: %s" % (cse["read_mark"], cse["reader_stderr"]))
+        rep = cse["reader_report"].split(" ", 1)
+        t = None
+        if len(rep) != 2:
+            raise vlib.ToolError("pinned reader gave no report: %r %s" % (cse["reader_report"], cse["reader_stderr"]))
+        if not rep[1].startswith("refused") and rep[0] != rep[1]:
+            t = "a read transaction pinned on WAL read mark %d saw generation %s of table a and generation %s of table b: a mix of the old and the new database (restore %s after %d ms)" % (cse["read_mark"], rep[0], rep[1], "succeeded" if cse["restore_ok"] else "failed", cse["restore_ms"])
+        elif cse["untouched_if_failed"] is False:
+            t = "a failed restore (reader on read mark %d) changed the destination file" % cse["read_mark"]
+        if t:
+            violations.append((t, vlib.write_replay(PID, "pinned", cse)))
     known += kn[:1]
     if s14_open and not kn:
         vlib.log("[C19] note: known finding S14 did not show in this run")
@@ -222,7 +245,8 @@ def run(tier):
            "rule": "per round: one source (own, foreign-authored and destination-authored cells, a deletion, an overwrite of a foreign cell, a membership row), one backup, a restore onto an absent database and a restore with --self-actor-id over the live database of a running agent with a reader process; %d successful concurrent reads, %d refused" % (reads, refused),
            "samples": samples[:3], "exhaustive": False, "model_states": r.distinct + lstates,
            "lock_model": {"configurations": [c[0] for c in RL_CONFIGS], "distinct_states": lstates, "stale_cache_counterexample": model_shows},
-           "cache_probe": [{k: v for k, v in c.items() if k != "log"} for c in cp["cases"]]}
+           "cache_probe": [{k: v for k, v in c.items() if k != "log"} for c in cp["cases"]],
+           "pinned_reader_probe": [{k: v for k, v in c.items() if k != "log"} for c in pp["cases"]]}
     vlib.write_evidence(PID, tier, LEVEL, cov, time.time() - t0, violations=len(violations), assumptions=[
         "one table shape (tests) and WAL journal mode only; rollback-journal sources and arbitrary schemas are not explored",
         "the reader's digest (row count, id sum, texts, clock rows) stands for 'entirely old or entirely new'",
